@@ -157,6 +157,20 @@ func (c *collector) serve(conn net.Conn, rec *connRec, ct cut) {
 
 const barrierMark = "BARRIER-CONNECTION"
 
+// processGoroutines counts goroutines currently inside (*OneWayTcpClient).process.
+func processGoroutines() int {
+	buf := make([]byte, 1<<20)
+	for {
+		n := runtime.Stack(buf, true)
+		if n < len(buf) {
+			buf = buf[:n]
+			break
+		}
+		buf = make([]byte, 2*len(buf))
+	}
+	return strings.Count(string(buf), "oneway.(*OneWayTcpClient).process(")
+}
+
 func (c *collector) barrierSeen() bool {
 	c.mu.Lock()
 	conns := append([]*connRec(nil), c.conns...)
@@ -178,16 +192,16 @@ func (c *collector) setSentinel(p []byte) {
 	c.mu.Unlock()
 }
 
-// allDrained: every connection that ever carried data has been read to EOF (or was cut by
-// the collector). Connections without any byte (a reconnect made by the background
-// goroutine during teardown) are ignored.
+// allDrained: every accepted connection has been read to EOF (or was cut by the collector).
+// The harness closes the client connection before asking, and no background goroutine is left
+// that could open another one, so every connection reaches EOF.
 func (c *collector) allDrained() bool {
 	c.mu.Lock()
 	conns := append([]*connRec(nil), c.conns...)
 	c.mu.Unlock()
 	for _, r := range conns {
 		r.mu.Lock()
-		ok := r.done || len(r.data) == 0
+		ok := r.done
 		r.mu.Unlock()
 		if !ok {
 			return false
@@ -587,7 +601,7 @@ func runScenario(c *vlib.Ctx, sc scenario, r *vlib.Rand, label string) {
 		spl := pack.ToBytesPack(sp)
 		col.setSentinel(spl)
 		deadline := time.Now().Add(120 * time.Second)
-		for cl.Send(sp) != nil {
+		for cl.SendFlush(sp, true) != nil {
 			if time.Now().After(deadline) {
 				c.Inconclusive(label, "sentinel could not be enqueued within 120 s")
 				return
@@ -605,6 +619,23 @@ func runScenario(c *vlib.Ctx, sc scenario, r *vlib.Rand, label string) {
 		acked++
 	}
 	cl.VerifCancel()
+	if sc.singleton {
+		cl.Destroy()
+	}
+	if sc.bg || sc.singleton || sc.useQueue {
+		// The background goroutine reconnects whenever it finds the connection closed. Wait
+		// until it has really exited (it polls its queue with sleeps of up to 1.7 s; a dummy
+		// element wakes the poll) so that no stray connection can appear during teardown.
+		cl.Queue.PutForce("wake-up")
+		deadline := time.Now().Add(120 * time.Second)
+		for processGoroutines() > 0 {
+			if time.Now().After(deadline) {
+				c.Inconclusive(label, "background goroutine did not exit within 120 s after its context was cancelled")
+				return
+			}
+			time.Sleep(5 * time.Millisecond)
+		}
+	}
 	cl.VerifCloseLocked()
 	{
 		// barrier: the accept queue is FIFO, so once the collector has accepted this marker
@@ -898,6 +929,64 @@ func main() {
 	})
 	c.Cases("fault-multi", scale(48, 800), func(i int, r *vlib.Rand) {
 		runScenario(c, scenario{kind: "fault-multi", senders: r.Range(2, 12), perSender: r.Range(10, 40), gomax: gomaxes[i%4], schedule: cutPoints(r, i)}, r, fmt.Sprint("fault-multi#", i))
+	})
+	// queue mode with SendAndClear() called concurrently with the background drain
+	c.Cases("queue-sendclear", scale(6, 100), func(i int, r *vlib.Rand) {
+		runScenario(c, scenario{kind: "queue-sendclear", senders: r.Range(1, 6), perSender: r.Range(20, 100), gomax: gomaxes[(i+3)%4], useQueue: true, queueSize: 0, bg: true, sendClear: true}, r, fmt.Sprint("queue-sendclear#", i))
+	})
+	// a client that has never been connected (collector down at start-up): flushing must fail
+	// or do nothing, not crash the process; once the collector is up the packs get through
+	c.Cases("never-connected", scale(4, 40), func(i int, r *vlib.Rand) {
+		label := fmt.Sprint("never-connected#", i)
+		col, err := newCollector(nil)
+		if err != nil {
+			c.Inconclusive(label, err.Error())
+			return
+		}
+		defer col.close()
+		col.down()
+		opts := []oneway.OneWayTcpClientOption{oneway.WithServers([]string{col.addr}), oneway.WithLicense("lic")}
+		useQ := i%2 == 0
+		if useQ {
+			opts = append(opts, oneway.WithUseQueue())
+		}
+		cl := oneway.NewOneWayTcpClientVerif(opts...)
+		defer cl.VerifCloseLocked()
+		p, _ := mkPack(r, 0, 0, false)
+		if pv := vlib.Catch(func() {
+			cl.Send(p)
+			cl.SendAndClear()
+			cl.SendFlush(p, true)
+		}); pv != nil {
+			c.Fail("never-connected:panic", fmt.Sprintf("sending/flushing on a client whose first connect failed panics: %v", pv), map[string]interface{}{"queue_mode": useQ})
+		}
+		col.up()
+		q, _ := mkPack(r, 0, 1, false)
+		pl := pack.ToBytesPack(q)
+		var e error
+		if pv := vlib.Catch(func() {
+			e = cl.SendFlush(q, true)
+			if useQ {
+				e = cl.SendAndClear()
+			}
+		}); pv != nil {
+			c.Fail("never-connected:panic", fmt.Sprintf("sending after the collector came up panics: %v", pv), map[string]interface{}{"queue_mode": useQ})
+			return
+		}
+		if e != nil {
+			c.Fail("never-connected:no-connect-on-later-send", "the collector is up but the send still fails: "+e.Error(), map[string]interface{}{"queue_mode": useQ})
+			return
+		}
+		cl.VerifCloseLocked()
+		deadline := time.Now().Add(60 * time.Second)
+		for !streamContains(col, pl) {
+			if time.Now().After(deadline) {
+				c.Inconclusive(label, "pack not seen within 60 s")
+				return
+			}
+			time.Sleep(time.Millisecond)
+		}
+		c.Count("scenarios/never-connected", 1)
 	})
 	// production path: singleton with its background goroutine, healthy connection
 	c.Cases("singleton-healthy", scale(2, 16), func(i int, r *vlib.Rand) {
